@@ -26,6 +26,7 @@ def run(ctx):
             s_["cfg"]["interceptors"] = 2 + (k_ // 3) % 2
             s_["cfg"]["panicIc"] = 1 + (k_ // 6) % s_["cfg"]["interceptors"]
             s_["family"] = "layout-ic-panic"
+        s_["cfg"]["icKind"] = ("", "value", "func")[k_ % 5 % 3]      # dynamic type of the interceptors
     cviols, cstats, ctrace, ccases = cc.run_scenarios(ctx, scs + lay, name="c18cons")
     cmine = [v for v in cviols if v["clause"] in cc.CLAUSES["C18"]]
     mr = ctx.need(ctx.tlc("Consumer", "Consumer.quick.cfg", timeout=900, name="consumer-mc"), "consumer pipeline model (InterceptOnce)")
